@@ -53,6 +53,8 @@ def run(ctx):
     HR.check_sibling_codecs(ctx, ht, 'C10.2', select=crop)
     HR.check_roles(ctx, ht, 'C10.2', select=crop)
     ctx.floor('C10.2', 12)
+    from .c03 import version_gated_fields
+    version_gated_fields(ctx, ht, 'C10.2', select=lambda f: f.module.name == 'cropping')
     check_footer(ctx, ht, 'C10.3', select=lambda f: f.module.name == 'cropping')
     footer_crop(ctx)
     validation(ctx)
